@@ -1111,10 +1111,34 @@ def map_key_models():
     return out
 
 
+def structure_models():
+    """Models around one structural corner each (quick: one configuration, all targets). `__may_reject__`: yardl may refuse the
+    model; if it accepts it, everything generated must compile / import like for any other model."""
+    pk = "Pk: !protocol\n  sequence:\n    a: Rk\n"
+    rec = lambda *fs: "Rk: !record\n  fields:\n%s" % "".join("    %s: %s\n" % f for f in fs)
+    out = {
+        # helper templates are emitted per union arity: the only 3-case union sits inside a case of a 2-case union
+        "struct-union-arity-only-nested-in-vector": {"model/model.yml": rec(("u", "!union {scalar: double, items: !vector {items: [int, float, string]}}")) + pk},
+        "struct-union-arity-only-nested-in-map": {"model/model.yml": rec(("u", "!union {scalar: double, m: !map {keys: string, values: [int, float, string, bool]}}")) + pk},
+        "struct-union-arity-only-in-step": {"model/model.yml": rec(("x", "int")) + pk + "    b: [int, float, string, bool, long]\n"},
+        "struct-union-arity-only-in-stream": {"model/model.yml": rec(("x", "int")) + pk + "    b: !stream\n      items: [int, float, string]\n"},
+        "struct-union-arity-only-in-alias": {"model/model.yml": "Au: [int, float, string, bool]\n" + rec(("x", "Au?")) + pk},
+        "struct-union-arity-only-in-generic-argument": {"model/model.yml": "Gk<T>: !record\n  fields:\n    t: T\n" + "Ug: [int, float, string]\n" + rec(("g", "Gk<Ug>")) + pk},
+    }
+    # enum / flags values at the edges of the base type: accepted values must be representable in every backend
+    for name, base, vals in (("enum-default-base-int32-max", None, "{a: 0, z: 0x7FFFFFFF}"), ("enum-default-base-above-int32", None, "{a: 0, z: 0xFFFFFFFF}"),
+                             ("enum-default-base-below-int32", None, "{a: 0, z: -2147483649}"), ("enum-default-base-int32-min", None, "{a: 0, z: -2147483648}"),
+                             ("enum-uint8-256", "uint8", "{a: 0, z: 256}"), ("enum-uint8-255", "uint8", "{a: 0, z: 255}"), ("enum-int8-minus-129", "int8", "{a: 0, z: -129}"),
+                             ("enum-uint64-max", "uint64", "{a: 0, z: 0xFFFFFFFFFFFFFFFF}"), ("enum-int64-above", "int64", "{a: 0, z: 0x8000000000000000}"),
+                             ("enum-uint16-negative", "uint16", "{a: 0, z: -1}")):
+        out["struct-" + name] = {"model/model.yml": "Ek: !enum\n%s  values: %s\n" % ("" if base is None else "  base: %s\n" % base, vals) + rec(("e", "Ek")) + pk, "__may_reject__": True}
+    return out
+
+
 def option_models():
     base = base_model()
     types_only = base[:base.index("Pq: !protocol")]
-    return dict(_option_models(base, types_only), **map_key_models())
+    return dict(_option_models(base, types_only), **dict(map_key_models(), **structure_models()))
 
 
 def _option_models(base, types_only):
@@ -1153,7 +1177,7 @@ def part_c(chk, quick):
             for nd, h5, cm, ov in cppo:
                 for pn in pyo:
                     for via in (False, True):
-                        if quick and mname.startswith("map-key-") and not (ts == all_t and (nd, h5, cm, ov, pn, via) == (True, True, True, True, True, False)):
+                        if quick and mname.startswith(("map-key-", "struct-")) and not (ts == all_t and (nd, h5, cm, ov, pn, via) == (True, True, True, True, True, False)):
                             continue
                         if quick:
                             full = ts == all_t and mname == "baseline"
@@ -1238,6 +1262,9 @@ def part_c(chk, quick):
                 opts = ",".join("%s=%s" % (k, cfg[k]) for k in ("ndjson", "hdf5", "cmake", "override", "pyndjson") if k in cfg)
                 chk.fail("options/%s/all/cli-override-rejected/%s" % (mname, opts), "model %s: `yardl generate %s` is rejected (%s) although the same settings are accepted in _package.yml" % (
                     mname, " ".join(cli_overrides(dict(DEFAULT_CFG, **cfg))), (r.get("stderr") or "").strip()[-200:]), {"part": "C", "model": mname, "cfg": cfg, "stderr": r.get("stderr")})
+                continue
+            if models[mname].get("__may_reject__"):
+                chk.outcome(("C", mname, "rejected"))
                 continue
             raise build.HarnessError("option model %s rejected: %s" % (mname, r.get("stderr")))
         label = "%s|%s|%s" % (mname, "+".join(cfg["targets"]), ",".join("%s=%s" % (k, cfg[k]) for k in sorted(cfg) if k != "targets"))
